@@ -406,10 +406,11 @@ def _res_only_from_guarded_call(f):
     return True
 
 
-triage.add('C07', 'C07-R1', _k('IndexError', 'nfc.dep.Initiator.exchange', 'res.data[0]'),
-           'res is always the return value of send_dep_req_recv_dep_res, which raises ProtocolError for a TimeoutExtension response without payload; '
-           'res.data[0] is read only under res.pfb.fmt == TimeoutExtension',
-           [('nfc.dep.Initiator.send_dep_req_recv_dep_res', _rtox_guard), ('nfc.dep.Initiator.exchange', _res_only_from_guarded_call)])
+for _site in ('res.data[0]', 'res.data[0] in `req = RTOX(res.data[0], self.did, self.nad)`', 'res.data[0] in `rwt = res.data[0] * self.rwt`'):
+    triage.add('C07', 'C07-R1', _k('IndexError', 'nfc.dep.Initiator.exchange', _site),
+               'res is always the return value of send_dep_req_recv_dep_res, which raises ProtocolError for a TimeoutExtension response without payload; '
+               'res.data[0] is read only under res.pfb.fmt == TimeoutExtension',
+               [('nfc.dep.Initiator.send_dep_req_recv_dep_res', _rtox_guard), ('nfc.dep.Initiator.exchange', _res_only_from_guarded_call)])
 
 
 def _listen_dep_checks_length(f):
